@@ -34,19 +34,87 @@ def run(R):
     reach = P.reachable([exf])
     # ---- index provenance
     eur = R.need_fn(EUR)
-    gets = [c for c in eur.calls if short(c.name) in ("regex::regex::string::Captures::get", "core::slice::<impl [T]>::get")]
-    if len(gets) != 2:
-        R.violation("C01.index", "extract_using_regex|lookups", "expected one Captures::get and one slice get (found %s)" % [short(c.name) for c in gets],
-                    [eur.loc()])
-    for c in gets:
-        os_ = F.origins(eur, c.args[1], depth=8, through_calls=False)
-        good = os_ and all(o.kind == "arg" and "group_index" in place_fields(o.place) for o in os_)
-        key = "extract_using_regex|" + short(c.name).split("::")[-2] + "::get"
+    # the lookups may sit in extract_using_regex itself or in a helper it calls (e.g. a `group(index)` accessor on the result type)
+    gets = []
+    for k in sorted(P.reachable([eur])):
+        g = P.fns[k]
+        if not g.spath.startswith("sqlgrep::data_model::"):
+            continue
+        for c in g.calls:
+            ts = " ".join(c.func.get("res_targs") or c.targs)
+            if short(c.name) == "regex::regex::string::Captures::get" or (short(c.name) == "core::slice::<impl [T]>::get" and "&str" in ts):
+                gets.append((g, c))
+    kinds = sorted(set(short(c.name).split("::")[-2] for g, c in gets))
+    if not any("Captures" in k for k in kinds) or len(kinds) < 2:
+        R.violation("C01.index", "extract_using_regex|lookups", "the single-group lookup no longer reads both a capture group (Captures::get) and a "
+                                                                "split field (slice get): found %s" % kinds, [eur.loc()])
+    for g, c in gets:
+        leaves = F.origins_ip(P, g, c.args[1], depth=3)
+        good = bool(leaves) and all(o.kind == "arg" and o.place is not None and "group_index" in place_fields(o.place) for h, o in leaves
+                                    if not (o.kind == "call" and F.TRANSPARENT.search(short(o.call.name))))
+        owner = g.spath.split("::")[-1]
+        key = "extract_using_regex|" + short(c.name).split("::")[-2] + "::get" + ("" if g.key == eur.key else "@" + owner)
         if good:
             R.ok("C01.index", key, "index = pattern.group_index (unmodified)", c.loc())
         else:
             R.violation("C01.index", key, "the group / field index passed to %s is not the unmodified group_index of the column's reference (%s): "
-                                          "a value would be taken from another group" % (short(c.name), [str(o) for o in os_]), [c.loc()])
+                                          "a value would be taken from another group" % (short(c.name), [str(o) for h, o in leaves][:4]), [c.loc()])
+    # ---- the column DEFAULT stands in only for a group that did not take part, never for text that failed to convert
+    R.rule("C01.default", "DEFAULT replaces only a group / field that did not take part in the match: no use of the default is conditioned on "
+                          "the outcome of ValueType::parse (text that is not a literal of the type yields NULL)")
+    PARSE = "sqlgrep::model::ValueType::parse"
+    darg = [a for a in range(1, eur.arg_count + 1) if eur.local_ty(a) == "sqlgrep::model::Value"]
+
+    def has_parse(h, op):
+        for h2, o in F.origins_ip(P, h, op, depth=2):
+            if o.kind == "call":
+                if short(o.call.name) == PARSE:
+                    return True
+                for ck in (o.call.func.get("closure_args") or []):
+                    cf = P.fns.get(ck) or P.fns.get("bin/" + ck)
+                    if cf is not None and any(short(c2.name) == PARSE for c2 in cf.calls):
+                        return True
+        return False
+    n_def = 0
+    for c in eur.calls:
+        for ai, a in enumerate(c.args):
+            if ai == 0 or a["k"] not in ("copy", "move"):
+                continue
+            if any(o.kind == "arg" and o.arg in darg for o in F.origins(eur, a, depth=6, through_calls=False)) and \
+                    re.search(r"^core::(option::Option|result::Result)::(unwrap_or|unwrap_or_else|map_or|map_or_else|or|or_else)$", short(c.name)):
+                n_def += 1
+                if has_parse(eur, c.args[0]):
+                    R.violation("C01.default", "extract_using_regex|%s" % short(c.name).split("::")[-1],
+                                "the column default replaces the result of ValueType::parse (%s on a value that went through the conversion): "
+                                "text that is not a literal of the column type yields the DEFAULT instead of NULL" % short(c.name).split("::")[-1],
+                                [c.loc()])
+                else:
+                    R.ok("C01.default", "extract_using_regex|%s" % short(c.name).split("::")[-1], "default stands in for a missing group only", c.loc())
+    for i, st in eur.stmts():
+        if st["k"] != "assign" or st["rv"]["k"] != "use" or st["rv"]["op"]["k"] not in ("copy", "move"):
+            continue
+        src = st["rv"]["op"]["pl"]
+        if src["l"] not in darg or src["p"] or st["pl"]["l"] != 0:
+            continue
+        n_def += 1
+        bad = None
+        for gsw, lab, tgt in F.guards_dominating(eur, i):
+            info = F.switch_info(eur, gsw)
+            if info and info[0] == "discr" and has_parse(eur, info[1]["pl"]):
+                bad = gsw
+            elif info and info[0] == "bool":
+                d = eur.blocks[gsw]["term"]["discr"]
+                if d["k"] in ("copy", "move") and has_parse(eur, d):
+                    bad = gsw
+        if bad is not None:
+            R.violation("C01.default", "extract_using_regex|branch", "the column default is returned on a branch decided by the outcome of "
+                                                                     "ValueType::parse: text that is not a literal of the type yields the DEFAULT "
+                                                                     "instead of NULL", ["%s:%d" % (eur.file, st["line"])])
+        else:
+            R.ok("C01.default", "extract_using_regex|return@%d" % n_def, "default returned only where the group is absent", "%s:%d" % (eur.file, st["line"]),
+                 nontrivial=(n_def <= 3))
+    if n_def == 0:
+        R.note("C01.default: no use of the default value recognised in extract_using_regex")
     # per-pattern results are addressed by the pattern's identity (its name), never by position
     pg = []
     for k in sorted(reach):
